@@ -139,6 +139,11 @@ pub fn check_writer(mem: &MemFile, evs: &Vec<Event>) -> Result<Vec<u8>, Violatio
   let mut w = DevInputWriter::verif_from_fd(mem.fd);
   w.send(evs).map_err(|e| Violation::new("write-failed", format!("send of {} events failed: {}", evs.len(), e)))?;
   let bytes = mem.contents();
+  verify_bytes(&bytes, evs)?;
+  Ok(bytes)
+}
+
+pub fn verify_bytes(bytes: &[u8], evs: &Vec<Event>) -> Result<(), Violation> {
   let expect_len = (evs.len() + 1) * REC;
   if bytes.len() != expect_len {
     return Err(Violation::new("wrong-record-size", format!("a batch of {} events was written as {} bytes; {} records of sizeof(struct input_event)={} bytes are {} bytes", evs.len(), bytes.len(), evs.len() + 1, REC, expect_len)));
@@ -157,7 +162,118 @@ pub fn check_writer(mem: &MemFile, evs: &Vec<Event>) -> Result<Vec<u8>, Violatio
   if s.type_ != 0 || s.code != 0 || s.value != 0 {
     return Err(Violation::new("missing-syn-report", format!("the record after the {} events is (type {}, code {}, value {}), expected SYN_REPORT (0, 0, 0)", evs.len(), s.type_, s.code, s.value)));
   }
-  Ok(bytes)
+  Ok(())
+}
+
+// ---- sessions: several batches through ONE writer on one thread -------------------------------
+// "For every batch" includes the batch that follows a failed or a short write: in between the
+// good batches (written to a memfd and verified) the same writer object is pointed (dup2) at a
+// descriptor that rejects the write, or at a nearly full non-blocking pipe that takes only part
+// of it. What those episodes themselves write is not judged (a real uinput device takes a
+// batch or rejects it); every good batch must be exactly its records plus one SYN_REPORT.
+#[derive(Clone, Debug)]
+pub enum SessOp {
+  Good(Vec<Event>),
+  Rejected(Vec<Event>),
+  Congested(Vec<Event>, usize), // free bytes left in the pipe
+}
+
+#[derive(Clone, Debug)]
+pub struct Session {
+  pub ops: Vec<SessOp>,
+}
+
+pub fn session_json(s: &Session) -> Value {
+  json!({"session": s.ops.iter().map(|o| match o {
+    SessOp::Good(b) => json!({"good": b.iter().map(ev_text).collect::<Vec<_>>()}),
+    SessOp::Rejected(b) => json!({"rejected": b.iter().map(ev_text).collect::<Vec<_>>()}),
+    SessOp::Congested(b, f) => json!({"congested": b.iter().map(ev_text).collect::<Vec<_>>(), "free_bytes": f}),
+  }).collect::<Vec<_>>()})
+}
+
+pub fn session_from_json(v: &Value) -> Option<Session> {
+  let mut ops = Vec::new();
+  for o in v.get("session")?.as_array()? {
+    let evs = |x: &Value| -> Option<Vec<Event>> { x.as_array()?.iter().map(|e| ev_from_text(e.as_str()?)).collect() };
+    if let Some(b) = o.get("good") {
+      ops.push(SessOp::Good(evs(b)?));
+    } else if let Some(b) = o.get("rejected") {
+      ops.push(SessOp::Rejected(evs(b)?));
+    } else if let Some(b) = o.get("congested") {
+      ops.push(SessOp::Congested(evs(b)?, o.get("free_bytes")?.as_u64()? as usize));
+    }
+  }
+  Some(Session { ops })
+}
+
+// Every session runs on a thread of its own: whatever the code under test keeps per thread
+// (or per process and thread) starts afresh, so a failure is a function of the session alone
+// and reproduces from its replay file.
+pub fn run_session_isolated(s: &Session) -> Result<(), Violation> {
+  std::thread::scope(|sc| {
+    sc.spawn(|| {
+      let mem = MemFile::new();
+      run_guarded(|| run_session(&mem, s))
+    })
+    .join()
+    .unwrap_or_else(|_| Err(Violation::new("panic", "session thread panicked".to_string())))
+  })
+}
+
+pub fn run_session(mem: &MemFile, s: &Session) -> Result<(), Violation> {
+  // the writer's own descriptor number; what it refers to is switched with dup2
+  let x = unsafe { libc::dup(mem.fd) };
+  assert!(x >= 0, "dup failed");
+  let devnull = std::ffi::CString::new("/dev/null").unwrap();
+  let rdonly = unsafe { libc::open(devnull.as_ptr(), libc::O_RDONLY | libc::O_CLOEXEC) };
+  let mut w = DevInputWriter::verif_from_fd(x);
+  let mut result = Ok(());
+  for (i, op) in s.ops.iter().enumerate() {
+    match op {
+      SessOp::Good(b) => {
+        unsafe { libc::dup2(mem.fd, x) };
+        mem.reset();
+        let r = w.send(b).map_err(|e| Violation::new("write-failed", format!("batch {} of the session ({} events) failed: {}", i, b.len(), e))).and_then(|_| verify_bytes(&mem.contents(), b));
+        if let Err(mut v) = r {
+          v.detail = format!("batch {} of a session through one writer (after {} earlier batches, see the replay file): {}", i, i, v.detail);
+          result = Err(v);
+          break;
+        }
+      }
+      SessOp::Rejected(b) => {
+        if rdonly >= 0 {
+          unsafe { libc::dup2(rdonly, x) };
+          let _ = w.send(b);
+          unsafe { libc::dup2(mem.fd, x) };
+        }
+      }
+      SessOp::Congested(b, free) => {
+        let p = Pipe::new();
+        let cap = unsafe { libc::fcntl(p.w, libc::F_SETPIPE_SZ, 16384) };
+        let cap = if cap > 0 { cap as usize } else { 65536 };
+        let fill = vec![0u8; cap.saturating_sub(*free)];
+        let mut off = 0;
+        while off < fill.len() {
+          let n = unsafe { libc::write(p.w, fill[off..].as_ptr() as *const libc::c_void, (fill.len() - off).min(4096)) };
+          if n <= 0 {
+            break;
+          }
+          off += n as usize;
+        }
+        unsafe { libc::dup2(p.w, x) };
+        let _ = w.send(b);
+        unsafe { libc::dup2(mem.fd, x) };
+      }
+    }
+  }
+  drop(w);
+  unsafe {
+    libc::close(x);
+    if rdonly >= 0 {
+      libc::close(rdonly);
+    }
+  }
+  result
 }
 
 // feeds bytes to the tool's reader through a pipe and collects what it returns
@@ -452,6 +568,103 @@ pub fn check(cfg: &RunCfg, _findings: &Findings) -> Report {
     rep.violations.push((v2, path));
     return rep;
   }
+  // sessions
+  {
+    let (st, fail) = run_prop(
+      cfg,
+      "C18-sessions",
+      16,
+      if quick { 1_500 } else { 20_000 },
+      32,
+      400,
+      |src: &mut Src| {
+        let n_ops = src.range(2, 8);
+        let mut ops = Vec::new();
+        for _ in 0..n_ops {
+          let n = match src.weighted(&[10, 55, 15, 20]) {
+            0 => 0,
+            1 => src.range(1, 12),
+            2 => src.range(13, 169),
+            _ => src.range(170, 600),
+          };
+          let mut h = src.u32() as u64 | 1;
+          let mut batch = Vec::with_capacity(n);
+          for i in 0..n {
+            let (ki, press) = if i < 16 {
+              (src.below(all_ref.len()), src.chance(50))
+            } else {
+              h = crate::tape::splitmix64(h);
+              ((h % all_ref.len() as u64) as usize, (h >> 40) & 1 == 1)
+            };
+            batch.push(if press { Event::Pressed(all_ref[ki]) } else { Event::Released(all_ref[ki]) });
+          }
+          ops.push(match src.weighted(&[60, 22, 18]) {
+            0 => SessOp::Good(batch),
+            1 => SessOp::Rejected(batch),
+            _ => SessOp::Congested(batch, src.pick(&[0usize, 24, 100, 4096, 5000, 8192])),
+          });
+        }
+        Session { ops }
+      },
+      |s: &Session, stats: &mut Stats| {
+        if let Err(v) = run_session_isolated(s) {
+          if std::env::var("TM_DEBUG_C18").is_ok() {
+            eprintln!("[debug] session failed: {} {}", v.kind, v.detail);
+          }
+          return Err(v);
+        }
+        stats.label("session");
+        let bad = s.ops.iter().filter(|o| !matches!(o, SessOp::Good(_))).count();
+        if bad > 0 && matches!(s.ops.last(), Some(SessOp::Good(_))) {
+          stats.label("good-batch-after-a-failed-or-short-write");
+          stats.nontrivial_case(hash64(&session_json(s).to_string()));
+        }
+        Ok(())
+      },
+    );
+    rep.stats.merge(st);
+    if let Some(f) = fail {
+      // minimise: fewer operations, shorter batches
+      let kind = f.violation.kind.clone();
+      let fails = |s: &Session| matches!(run_session_isolated(s), Err(v) if v.kind == kind);
+      let mut best = f.case.clone();
+      let mut changed = fails(&best);
+      while changed {
+        changed = false;
+        for i in (0..best.ops.len()).rev() {
+          let mut c = best.clone();
+          c.ops.remove(i);
+          if !c.ops.is_empty() && fails(&c) {
+            best = c;
+            changed = true;
+          }
+        }
+        for i in 0..best.ops.len() {
+          loop {
+            let mut c = best.clone();
+            let b = match &mut c.ops[i] {
+              SessOp::Good(b) | SessOp::Rejected(b) | SessOp::Congested(b, _) => b,
+            };
+            if b.is_empty() {
+              break;
+            }
+            let keep = b.len() - (b.len() + 1) / 2;
+            b.truncate(keep);
+            if fails(&c) {
+              best = c;
+              changed = true;
+            } else {
+              break;
+            }
+          }
+        }
+      }
+      let v2 = run_session_isolated(&best).err().unwrap_or(f.violation);
+      let path = write_replay("C18", &v2, &session_json(&best));
+      rep.violations.push((v2, path));
+      return rep;
+    }
+  }
   rep.extra.insert("exhaustive_slices".into(), json!(["every key code x {press, release} as a single-event batch", "every unknown code below 0x300 as a foreign record", "the empty batch"]));
   rep.assumptions = vec![
     "x86-64 Linux layout of struct input_event as given by the libc crate".to_string(),
@@ -464,6 +677,9 @@ pub fn check(cfg: &RunCfg, _findings: &Findings) -> Report {
 pub fn replay(file: &str) -> Result<(), Violation> {
   let text = std::fs::read_to_string(file).map_err(|e| Violation::new("io", format!("cannot read {}: {}", file, e)))?;
   let v: Value = serde_json::from_str(&text).map_err(|e| Violation::new("io", e.to_string()))?;
+  if let Some(sess) = session_from_json(v.get("case").unwrap_or(&v)) {
+    return run_session_isolated(&sess);
+  }
   let c = case_from_json(v.get("case").unwrap_or(&v)).ok_or_else(|| Violation::new("io", "bad case".to_string()))?;
   let known: std::collections::HashSet<u16> = all_key_codes().iter().map(|k| *k as i32 as u16).collect();
   let mem = MemFile::new();
